@@ -388,7 +388,10 @@ def npd_denotation(r):
         i = 1
         while i < len(key):
             name, q, unit = key[i]
-            if i + 1 < len(key) and key[i + 1][0] == name:
+            # two consecutive key entries of the same name form a pair only when their quantities do (a scalar
+            # column listed twice, e.g. "RL,RL", is two scalars of the same name)
+            if i + 1 < len(key) and key[i + 1][0] == name and \
+                    (q, key[i + 1][1]) in (("real", "imaginary"), ("magnitude", "angle"), ("R", "C"), ("R", "L")):
                 q2, unit2 = key[i + 1][1], key[i + 1][2]
                 a, b = vals[i], vals[i + 1]
                 if q == "real" and q2 == "imaginary":
@@ -417,6 +420,8 @@ def npd_denotation(r):
                 tk[name] = (row[i], row[i + 1])
                 i += 2
             else:
+                if name in d and not isinstance(d[name], complex) and row[i] != tk[name][0]:
+                    raise FormatError("column %s appears twice with different texts %s / %s" % (name, tk[name][0], row[i]))
                 d[name] = vals[i]
                 tk[name] = (row[i],)
                 i += 1
